@@ -161,7 +161,8 @@ def queries(tier):
         boundary, parts, epi, body = G.corpus_body(tag)
         distinct = distinct_state_prefixes(tag)
         # tails of one byte: quick = one prefix per distinct parser state, thorough = every prefix
-        for L in (distinct if not T or tag == "long" else list(range(len(body) + 1))):
+        every = T and tag in ("one", "zero", "crlf-data")     # the other bodies: one prefix per state
+        for L in (list(range(len(body) + 1)) if every else distinct):
             out.append(Q("tail1/%s/p%d" % (tag, L), make_tail(tag, L, 1),
                          "corpus body %r (boundary %r), prefix of %d bytes + every 1-byte tail (all 256 values) keeping a "
                          "well-formed prefix" % (tag, boundary, L),
@@ -169,8 +170,9 @@ def queries(tier):
         # tails of two bytes incl. the cut inside the tail
         if T or tag in ("one", "zero"):
             for L in distinct:
-                if not T and state_sig(boundary, body[:L])[0] == "_eat_data":
-                    continue        # two symbolic bytes inside a data section need > 2000 paths: thorough tier only
+                if state_sig(boundary, body[:L])[0] == "_eat_data":
+                    continue        # two symbolic bytes inside a data section: > 6000 paths, not exhausted in 900 CPU s
+                                    # (two symbolic data bytes with every cut are decided by the holes family)
                 out.append(Q("tail2/%s/p%d" % (tag, L), make_tail(tag, L, 2),
                              "corpus body %r (boundary %r), prefix of %d bytes (one per distinct parser state) + every tail "
                              "of 1..2 bytes (all values) keeping a well-formed prefix, cut between prefix and tail and "
